@@ -107,7 +107,8 @@ Read(n, bil) ==
 \* VSinquire / VSelts / VSsizeof(all fields) / VFnfields
 Inquire ==
     /\ st = "attached"
-    /\ Log("Inquire", [a |-> 0], [nrec |-> Len(recs), il |-> fil, nfields |-> NF, recsize |-> RecSize])
+    \* (agree: the per-field queries -- index by name, name/type/order/size by index, existence -- describe the same schema)
+    /\ Log("Inquire", [a |-> 0], [nrec |-> Len(recs), il |-> fil, nfields |-> NF, recsize |-> RecSize, agree |-> TRUE])
     /\ UNCHANGED <<st, schema, recs, pos, mode, rsel, fil, wc>>
 
 \* VSfpack round trip over the current schema (pure helper): pack the fields of n records into record
